@@ -22,6 +22,7 @@ func TestMain(m *testing.M) {
 	vh.Rule("fault enumeration: responses from the C02 grammar (<= 400 bytes, cut into 1..5 packets) are delivered through the real reader goroutine over a scripted transport that starts failing after byte offset k of the TCP stream, for EVERY k in 0..len (exhaustive per response), x failure kind {EOF forever, EOF together with the last bytes, an error wrapping io.EOF (a tunnelled transport), connection reset error, timeout-style error} x packet type {RESPONSE, NORMAL} x PacketReadTimeout {0 s, 1 s (sampled in quick)}; plus write-side faults (Write returns an error or a short count at packet j of a multi-packet request). Oracle: the consumer receives exactly the packages that lie entirely inside the completely received packets (a prefix of the delivery model, values equal), a synthetic final DONE only if the EOM packet arrived completely, then an error within PacketReadTimeout + 2 s; NextPackage never blocks beyond that; failing writes make SendPackage return an error without panic. Non-trivial: 0 < k < len and k falls inside a packet (header or body); distinct by (response, packetisation, k, kind, timeout)")
 	vh.Assume("a silent stall is not a transport failure (no deadline is ever set on the socket) and is out of scope; packages are collected after the failure has been reported (the race between a queued package and a queued error inside NextPackage's select is schedule-dependent and documented by the library)")
 	vh.Rule("also: 11..40 further receive calls after the failure, each answered with an error within the bound")
+	vh.Rule("also: the consumer that waits (wait=true) collects the buffered packages of the complete packets before the failure")
 	vh.Main(m, "C14")
 }
 
